@@ -436,7 +436,12 @@ def rule_r1b(facts, rep, rid="C01-R1b"):
             while val.get("k") == "block" and val.get("e") is not None and not val.get("stmts"):
                 val = val["e"]
             for v in vs:
-                cont[fb.last_seg(v)] = (val.get("k") == "lit" and val.get("v") == "b:true") or fb.show(val) == "true"
+                cont[fb.last_seg(v)] = (val.get("k") == "lit" and val.get("v") in ("b:true", "bool:true")) or fb.show(val) == "true"
+    # `matches!(self, A | B)` = `match self { A | B => true, _ => false }`: the wildcard arm speaks for every variant it covers
+    if "_" in cont:
+        dflt = cont.pop("_")
+        for var in facts.adts[DB]["variants"]:
+            cont.setdefault(fb.last_seg(var["path"]), dflt)
     accepts = {}
     for m in A.matches_on(apb, "DocumentBlock")[:1]:
         for vs, arm in A.arms_of(m):
